@@ -156,8 +156,12 @@ class TypeRender:
                     '{ Some(::core::cmp::Ord::cmp(self, o)) } }' % self.name)
         return ''
 
+    FIELD_TYPES = {'P': 'P', 'bool': 'bool', 'u64': 'u64', 'unit': '()', 'char': 'char', 'str': "&'static str",
+                   'nz': '::core::num::NonZeroU8', 'opt': 'Option<u8>', 'nested': 'probes::Inner'}
+    with_finger = True
+
     def field_type(self, v, i, f):
-        return 'P'
+        return self.FIELD_TYPES[f.get('ty', 'P')]
 
     # ------------------------------------------------------------ item
     def fields_src(self, v, var, with_vis=False):
@@ -210,7 +214,12 @@ class TypeRender:
         return '%s(%s)' % (path, ', '.join(args))
 
     def field_ctor(self, v, i, f, side, val):
-        return 'P::new(%s, %d, %s)' % (side, i, val)
+        ty = f.get('ty', 'P')
+        if ty == 'P':
+            return 'P::new(%s, %d, %s)' % (side, i, val)
+        if ty == 'unit':
+            return '()'
+        return 'probes::mk_%s(%s)' % (ty, val)
 
     def finger_arm(self, v, var):
         c = self.cfg
@@ -233,7 +242,7 @@ class TypeRender:
         nv = len(c['variants'])
         nf_arms = ' '.join('%d => %d,' % (v, len(var['fields'])) for v, var in enumerate(c['variants'], 1))
         mk_arms = ' '.join('%d => %s,' % (v, self.ctor(v, var)) for v, var in enumerate(c['variants'], 1))
-        if c['kind'] == 'union':
+        if c['kind'] == 'union' or not self.with_finger:
             finger = ''
         elif nv == 0:
             finger = 'fn finger(&self) -> String { match *self {} }'
